@@ -45,7 +45,11 @@ def run_stream(ctx, r, idx):
 	ctx.count("version_combo:%s" % "/".join(str(m.ver) for m in bench.models))
 	nb = r.randint(50, 400) if ctx.tier == "thorough" else r.randint(50, 200)
 	fn = r.randrange(trxd.HYPERFRAME)
-	fn_mode = r.randrange(3)
+	fn_mode = r.randrange(4)
+	if fn_mode == 3:
+		# consecutive frames across the hyperframe wrap: frame 0 is a multiple of every period
+		fn = trxd.HYPERFRAME - 1 - r.randrange(nb)
+		ctx.count("streams_across_the_hyperframe_wrap")
 	for b in range(nb):
 		# commands between bursts
 		x = r.random()
@@ -79,10 +83,17 @@ def run_stream(ctx, r, idx):
 				return
 		# one burst
 		s = r.randrange(n)
-		if fn_mode == 0:
+		if r.random() < 0.04:
+			# a message without burst bits from the L1 (header only; the parser accepts it) is not a burst: whatever the
+			# recipients make of it, it must not use up a unit of a pending drop budget - the bursts after it show that
+			bench.transmit(s, {"dir": "tx", "ver": bench.models[s].ver, "fn": fn if r.random() < 0.5 else 0, "tn": r.randrange(8),
+				"pwr": 0, "bits": b""})
+			log.append("%s: header-only message" % specs[s]["name"])
+			ctx.count("header_only_messages_between_bursts")
+		if fn_mode in (0, 3):
 			fn = (fn + 1) % trxd.HYPERFRAME
 		elif fn_mode == 1:
-			fn = (fn + r.choice((0, 0, 1, 2, 13, 26, 51, -1, -7))) % trxd.HYPERFRAME
+			fn = (fn + r.choice((0, 0, 1, 2, 13, 26, 51, -1, -7))) % trxd.HYPERFRAME if r.random() > 0.03 else 0
 		else:
 			fn = r.randrange(trxd.HYPERFRAME)
 		bits = trxd.rand_bits(r, r.choice((148, 148, 148, 444)))
